@@ -259,7 +259,13 @@ class MiniInterp:
                     d = fi.param_default(p)
                     if d is None:
                         raise Unknown(f"missing argument {p} of {fi.local}")
-                    env[p] = self.ev(d, {}, fi)
+                    # a default is evaluated once, when the function is defined: every call that omits the argument
+                    # receives the same object
+                    dk = (fi.qual, p)
+                    store = self.__dict__.setdefault("_defaults", {})
+                    if dk not in store:
+                        store[dk] = self.ev(d, {}, fi)
+                    env[p] = store[dk]
             is_gen = any(isinstance(x, (ast.Yield, ast.YieldFrom)) for x in fi.walk())
             if is_gen:
                 env["__yield__"] = []
@@ -728,14 +734,25 @@ class MiniInterp:
             if n.id in env:
                 return env[n.id]
             return self.global_name(n.id, fi)
-        if isinstance(n, ast.Tuple):
-            return tuple(self.ev(e, env, fi) for e in n.elts)
-        if isinstance(n, ast.List):
-            return [self.ev(e, env, fi) for e in n.elts]
-        if isinstance(n, ast.Set):
-            return self.mkset([self.ev(e, env, fi) for e in n.elts])
+        if isinstance(n, (ast.Tuple, ast.List, ast.Set)):
+            xs = []
+            for e in n.elts:
+                if isinstance(e, ast.Starred):
+                    xs.extend(self.iterate(self.ev(e.value, env, fi)))
+                else:
+                    xs.append(self.ev(e, env, fi))
+            return tuple(xs) if isinstance(n, ast.Tuple) else xs if isinstance(n, ast.List) else self.mkset(xs)
         if isinstance(n, ast.Dict):
-            return {self.key(self.ev(k, env, fi)): self.ev(v, env, fi) for k, v in zip(n.keys, n.values)}
+            d = {}
+            for k, v in zip(n.keys, n.values):
+                if k is None:
+                    m = self.ev(v, env, fi)
+                    if not isinstance(m, dict):
+                        raise Unknown("** of a non-dictionary in a display")
+                    d.update(m)
+                else:
+                    d[self.key(self.ev(k, env, fi))] = self.ev(v, env, fi)
+            return d
         if isinstance(n, ast.BoolOp):
             v = None
             for x in n.values:
@@ -1195,6 +1212,11 @@ class MiniInterp:
     def stdlib(self, full, base, args, kwargs, node):
         """operator / functools / itertools / collections helpers, interpreted"""
         mod = full.split(".")[0]
+        if full == "dataclasses.field" and not args:
+            extra = set(kwargs) - {"default", "default_factory", "init", "repr", "compare", "hash", "kw_only", "metadata"}
+            if extra:
+                raise Unknown(f"dataclasses.field({', '.join(sorted(extra))})")
+            return T("dcfield", kwargs.get("default", T("missing")), kwargs.get("default_factory"), kwargs.get("init", True))
         if mod == "operator":
             if base == "attrgetter" and args and all(isinstance(a, str) for a in args):
                 def get(obj, path):
@@ -1492,17 +1514,42 @@ class MiniInterp:
         names = [f for f, _ in fields]
         if any(c.is_namedtuple() for c in ci.mro()):
             obj.tuple_order = names
-        if len(args) > len(names):
+        # defaults are evaluated in the class body, once; dataclasses.field(...) gives default / default_factory / init
+        store = self.__dict__.setdefault("_defaults", {})
+        spec = {}
+        for nm, default in fields:
+            if default is None:
+                continue
+            dk = (ci.qual, nm)
+            if dk not in store:
+                anchor = next(iter(ci.methods.values()), None) or fi
+                store[dk] = self.ev(default, {}, self.prj.func(anchor.qual) if hasattr(anchor, "qual") and anchor.qual in self.prj.funcs else anchor)
+            spec[nm] = store[dk]
+        init_names = [nm for nm in names if not (isinstance(spec.get(nm), T) and spec[nm][0] == "dcfield" and not spec[nm][3])]
+        if len(args) > len(init_names):
             raise Unknown(f"too many arguments for {ci.name}")
-        for nm, a in zip(names, args):
+        for nm, a in zip(init_names, args):
             obj.fields[nm] = a
         for k, v in kwargs.items():
+            if k not in init_names:
+                raise PyRaise("TypeError", node)
             obj.fields[k] = v
         for nm, default in fields:
             if nm not in obj.fields:
                 if default is None:
                     raise Unknown(f"missing field {nm} of {ci.name}")
-                obj.fields[nm] = self.ev(default, {}, fi)
+                d = spec[nm]
+                if isinstance(d, T) and d[0] == "dcfield":
+                    if not (isinstance(d[1], T) and d[1][0] == "missing"):
+                        d = d[1]
+                    elif d[2] is not None:
+                        d = self.apply2(d[2], [], {})
+                    else:
+                        raise Unknown(f"missing field {nm} of {ci.name}")
+                obj.fields[nm] = d
+        post = ci.find_method("__post_init__")
+        if post is not None:
+            self.call(self.prj.func(post.qual), [], {}, obj)
         return obj
 
     def builtin(self, name, args, kwargs, node):
